@@ -1003,6 +1003,17 @@ class Evaluator:
 
     def store(self, t, base, idx, v, fr):
         if isinstance(base, Dct):
+            owner = None
+            f = fr
+            while f is not None and owner is None:
+                so = f.self_obj
+                if isinstance(so, Obj):
+                    for an, av in so.attrs.items():
+                        if av is base:
+                            owner = (so, an)
+                f = f.parent
+            if owner is not None:
+                self.event("dict_store", obj=owner[0], attr=owner[1], key=idx, in_init=owner[0].in_init > 0, node=t)
             if isinstance(idx, V):
                 base.items[idx] = v
             else:
